@@ -63,7 +63,9 @@ class Unit:
         self.rules = {}            # rule -> count
         self.functions = []        # per-function metadata
         self.dropped = []          # dropped items (file, line, what, why)
-        self.local_mods = set(m.split('::')[0] for m, _ in cfg['modules'] if m) | set(cfg.get('prelude_modules', {}).keys())
+        self.local_mods = set(m[0].split('::')[0] for m in cfg['modules'] if m[0]) | set(cfg.get('prelude_modules', {}).keys())
+        self.mod_opts = {}         # options of the module being processed (see `module_entry`)
+        self.downgraded = set()    # keys emitted `assumed` here although their sidecar block says `verified` (E9)
 
     def rule(self, name, n=1):
         self.rules[name] = self.rules.get(name, 0) + n
@@ -87,10 +89,27 @@ class Unit:
         return first in self.local_mods
 
     # ------------------------------------------------------------------------------------------
-    def process_file(self, relpath, modpath):
-        path = os.path.join(self.cfg['root'], relpath)
-        raw = open(path).read()
-        src = strip_comments(raw)
+    @staticmethod
+    def module_entry(m):
+        """A `modules` entry is `(modpath, file)` (file relative to cfg['root'], keys prefixed by cfg['repo_prefix']) or
+        `(modpath, file, opts)` for a module taken from ANOTHER crate root: opts = dict(root=<dir>, repo_prefix=<repo-relative dir>,
+        path_rewrites=[(regex, replacement), ...]).  The rewrites (rule E0.path_rewrite, counted) are applied to the comment-stripped
+        text of that file before it is split into items; they exist to re-root paths of a dependency that is flattened into the
+        same Verus crate (`frost_core::` -> `crate::`)."""
+        return (m[0], m[1], (m[2] if len(m) > 2 else {}))
+
+    def read_module(self, relpath, opts):
+        path = os.path.join(opts.get('root', self.cfg['root']), relpath)
+        src = strip_comments(open(path).read())
+        for pat, repl in opts.get('path_rewrites', ()):
+            src, n = re.subn(pat, repl, src)
+            if n:
+                self.rule('E0.path_rewrite', n)
+        return src
+
+    def process_file(self, relpath, modpath, opts=None):
+        self.mod_opts = opts or {}
+        raw = src = self.read_module(relpath, self.mod_opts)
         # inner attributes / module docs at file top
         items = split_items(src)
         return self.process_items(items, src, raw, relpath, modpath)
@@ -99,7 +118,7 @@ class Unit:
         """Returns (verus_text, plain_text): items placed inside `verus!{}` and plain-Rust items."""
         V = []   # inside verus!
         P = []   # outside
-        repo_rel = os.path.join(self.cfg['repo_prefix'], relpath)
+        repo_rel = os.path.join(self.mod_opts.get('repo_prefix', self.cfg['repo_prefix']), relpath)
         for it in items:
             why = self.cfg_dropped(it.attrs)
             if why:
@@ -156,10 +175,56 @@ class Unit:
                 V.append(re.sub(r'^pub\([^)]*\)', 'pub', it.text))
                 continue
             if k == 'trait':
-                raise ExtractError('%s:%d: trait definition outside the prelude is not covered by the rules' % (repo_rel, it.line))
+                V.append(self.process_trait(it, repo_rel, modpath))
+                continue
             self.dropped.append((repo_rel, it.line, norm_ws(it.text)[:70], 'unclassified item'))
             self.rule('E1.other_item_dropped')
         return '\n'.join(x for x in V if x), '\n'.join(x for x in P if x)
+
+    # ------------------------------------------------------------------------------------------
+    def process_trait(self, it, repo_rel, modpath):
+        """E14: a trait definition outside the prelude whose methods have NO default bodies is emitted as it stands (made `pub`, E3).
+        A sidecar block `fn <file> :: trait <Name> :: <method>` may give the method declaration a contract (`requires`/`ensures`) and
+        trait-level spec functions (`hook_spec`); such a contract is an ASSUMPTION about every implementation outside the unit and
+        an obligation for every impl inside it (Verus checks impls against the trait contract).  Default bodies are refused."""
+        b = find_block_open(it.text)
+        e = find_matching(it.text, b)
+        hdr = it.text[:b].strip()
+        if not re.match(r'pub\b', hdr):
+            hdr = 'pub ' + hdr
+        out = []
+        for sub in split_items(it.text, b + 1, e):
+            sub.line = it.line + it.text.count('\n', 0, sub.off)
+            sub.end_line = sub.line + sub.text.count('\n')
+            if self.cfg_dropped(sub.attrs):
+                self.rule('E1.cfg_item_dropped')
+                self.dropped.append((repo_rel, sub.line, it.name + ' :: ' + norm_ws(sub.text)[:50], 'cfg'))
+                continue
+            if sub.kind != 'fn':
+                out.append('    ' + sub.text)
+                continue
+            f = parse_fn(sub.text)
+            if f.has_body:
+                raise ExtractError('%s:%d: trait %s: default method body outside the prelude is not covered by the rules' % (repo_rel, sub.line, it.name))
+            key = '%s :: trait %s :: %s' % (repo_rel, it.name, f.name)
+            c = self.contracts.get(key)
+            ctext = ''
+            retname = 'res'
+            if c is not None:
+                c.used = True
+                retname = c.ret
+                for hs in c.hook_spec:
+                    out.append('    ' + hs.strip())
+                ctext = self.contract_text(c)
+            ret = (' -> (%s: %s)' % (retname, f.ret)) if f.ret else ''
+            where = ('\n    ' + f.where) if f.where else ''
+            vname = '::'.join([x for x in [self.cfg.get('crate_name', 'unit'), modpath] if x]) + '::' + it.name + '::' + f.name
+            self.functions.append(dict(key=key, verus_name=vname, file=repo_rel, lines=[sub.line, sub.end_line], sha256_source=sha(sub.text),
+                                       sha256_emitted=sha(sub.text), mode='assumed' if c is not None else 'declared', serves=(c.serves if c else []),
+                                       rules=['E14'], contract_file=(os.path.relpath(c.file, self.cfg['verif_root']) if c else None)))
+            out.append('    /*@FN %s*/\n    %sfn %s%s(%s)%s%s%s;\n    /*@ENDFN*/' % (key, re.sub(r'\bfn\s*$', '', f.prefix), f.name, f.generics, f.params, ret, where, ctext))
+            self.rule('E14.trait_declaration')
+        return hdr + ' {\n' + '\n'.join(out) + '\n}'
 
     # ------------------------------------------------------------------------------------------
     def derives(self, attrs):
@@ -342,7 +407,7 @@ class Unit:
         c = self.contracts.get(key)
         if c is not None:
             c.used = True
-            mode = c.mode
+            mode = self.downgrade(c.mode, key)
         else:
             mode = self.cfg.get('default_mode', 'assumed')
             if key in self.cfg.get('external', ()):
@@ -358,6 +423,8 @@ class Unit:
         meta = dict(key=key, verus_name=vname, file=repo_rel, lines=[it.line, it.end_line], sha256_source=sha(it.text), mode=mode,
                     serves=(c.serves if c else []), rules=[], contract_file=(os.path.relpath(c.file, self.cfg['verif_root']) if c else None))
         self.functions.append(meta)
+        if key in self.downgraded:
+            meta['rules'].append('E9')
         if mode == 'drop':
             self.rule('E1.fn_dropped')
             meta['sha256_emitted'] = None
@@ -395,6 +462,12 @@ class Unit:
             contract_txt = '\n    ensures /*@CL %s|ensures|transparent|%d*/ (%s == (%s)),' % (key, body.strip().count('\n'), retname, body.strip()[1:-1].strip())
             self.rule('E12.transparent_body')
             meta['rules'].append('E12')
+            if any(key.startswith(p) for p in self.cfg.get('assume_prefixes', ())):
+                # E9: checked against its own text in the unit that verifies this crate; here `res == <body>` is assumed
+                attrs.append('#[verifier::external_body]')
+                meta['mode'] = 'assumed'
+                meta['rules'].append('E9')
+                self.rule('E9.assumed_here_verified_elsewhere')
             if im is not None and im.trait and re.match(r'^From<', im.trait) and f.name == 'from':
                 src_ty = im.trait[5:-1]
                 extra = ('impl%s FromSpecImpl<%s> for %s%s { open spec fn obeys_from_spec() -> bool { true } open spec fn from_spec(%s) -> Self { %s } }'
@@ -409,6 +482,15 @@ class Unit:
         meta['sha256_emitted'] = sha(new_body)
         meta['body_unchanged'] = (new_body == body)
         return out, '', extra
+
+    def downgrade(self, mode, key):
+        """E9: a unit may list key prefixes (`assume_prefixes`) whose functions are verified in ANOTHER unit: here they are emitted
+        `assumed` (external_body + the character-identical contract), so that callers see contracts, not bodies."""
+        if mode == 'verified' and any(key.startswith(p) for p in self.cfg.get('assume_prefixes', ())):
+            self.rule('E9.assumed_here_verified_elsewhere')
+            self.downgraded.add(key)      # its body is emitted untransformed: no outlined helpers are generated for it
+            return 'assumed'
+        return mode
 
     def transparent_body(self, f):
         if not f.has_body or not f.ret:
@@ -526,28 +608,42 @@ class Unit:
         call = o.fields.get('call')
         if call is None:
             raise ExtractError('%s: outline %s has no call' % (key, o.name))
-        holes = re.findall(r'\$(\w+)', pat)
+        holes = re.findall(r'\$\$?(\w+)', pat)
         if holes:
             # E7 with operand holes: `$x` in `expr:` matches one operand (an identifier or field path); the same `$x` in
             # `call:` is replaced by the matched text, and the helper body is the idiom with the operands renamed to the
             # helper's parameters `x`.  The assumed `ensures` is then a statement about the idiom for ARBITRARY operands, and
             # exchanging/renaming operands in the source stays decidable (it changes the call, not the assumed helper).
+            # `$$x` matches an operand EXPRESSION: optional `&`, a path, optionally one call with plain arguments, optionally `?`
+            # (`&encode_group_commitments(signing_commitments)?`); the matched text stays in the caller (so does its `?`).
             if len(set(holes)) != len(holes):
                 raise ExtractError('%s: outline %s: a hole may occur only once in expr' % (key, o.name))
             rx = re.escape(pat)
             for h in sorted(holes, key=len, reverse=True):
-                rx = rx.replace(re.escape('$' + h), r'(?P<%s>[A-Za-z_][\w.]*)' % h, 1)
+                if ('$$' + h) in pat:
+                    rx = rx.replace(re.escape('$$' + h), r'(?P<%s>&?[A-Za-z_][\w.:]*(?:\([\w.:,&*]*\))?\??)' % h, 1)
+                else:
+                    rx = rx.replace(re.escape('$' + h), r'(?P<%s>[A-Za-z_][\w.]*)' % h, 1)
             m = re.search(rx, flat)
             if not m or (idx[m.start()] > 0 and (t[idx[m.start()] - 1].isalnum() or t[idx[m.start()] - 1] in '_.')):
+                if o.fields.get('optional'):
+                    # `optional: yes`: the idiom is absent, nothing is outlined and nothing assumed; the body is verified as it stands
+                    o.skipped = True
+                    self.rule('E7.optional_outline_absent')
+                    return t
                 raise ExtractError('%s: lost anchor: outlined expression `%s` not found' % (key, norm_ws(expr)[:80]))
             p, plen = m.start(), m.end() - m.start()
             for h in sorted(holes, key=len, reverse=True):
-                call = call.replace('$' + h, m.group(h))
-            o.body = re.sub(r'\$(\w+)', r'\1', expr)
+                call = call.replace('$$' + h, m.group(h)).replace('$' + h, m.group(h))
+            o.body = re.sub(r'\$\$?(\w+)', r'\1', expr)
             self.rule('E7.outlined_idiom_operand_holes')
         else:
             p, plen = flat.find(pat), len(pat)
             if p < 0:
+                if o.fields.get('optional'):
+                    o.skipped = True
+                    self.rule('E7.optional_outline_absent')
+                    return t
                 raise ExtractError('%s: lost anchor: outlined expression `%s` not found' % (key, norm_ws(expr)[:80]))
         a, b = idx[p], idx[p + plen - 1] + 1
         self.rule('E7.outlined_idiom')
@@ -558,6 +654,8 @@ class Unit:
     def outline_items(self, c):
         out = []
         for o in c.outlines:
+            if getattr(o, 'skipped', False):
+                continue
             sig = o.fields.get('sig', '').strip()
             req = o.fields.get('requires')
             ens = o.fields.get('ensures')
@@ -742,6 +840,10 @@ class Unit:
         n = len(t)
         while i < n:
             ch = t[i]
+            if t.startswith('/*@', i):
+                # clause markers injected by earlier passes carry the function key, which may contain `for` (`Trait for Type`)
+                i = t.index('*/', i) + 2
+                continue
             if ch in '"\'br':
                 e = skip_literal(t, i)
                 if e is not None:
@@ -1024,7 +1126,7 @@ class Unit:
             gen = f.generics
             gen2 = '<C: Ciphersuite' + ((', ' + gen[1:-1]) if gen else '') + '>'
             dkey = key
-            mode = c.mode if c else cfg.get('default_mode', 'assumed')
+            mode = self.downgrade(c.mode, key) if c else cfg.get('default_mode', 'assumed')
             meta = dict(key=dkey, verus_name=cfg.get('crate_name', 'unit') + '::traits_defaults::default_' + f.name, file=repo_rel, lines=[sub.line, sub.end_line], sha256_source=sha(sub.text), mode=mode,
                         serves=(c.serves if c else []), rules=['E10'], contract_file=(os.path.relpath(c.file, cfg['verif_root']) if c else None))
             self.functions.append(meta)
@@ -1060,7 +1162,8 @@ class Unit:
         cfg = self.cfg
         out = []
         out.append(cfg.get('header', ''))
-        out.append(VPREL)
+        # `vprel_extra`: further `pub use` lines for the glob-imported name module (types / spec modules a unit adds)
+        out.append(VPREL.replace('\n}\n', '\n' + cfg.get('vprel_extra', '') + '\n}\n') if cfg.get('vprel_extra') else VPREL)
         # prelude (crate root level text, already containing its own verus! blocks)
         for p in cfg.get('prelude_files', []):
             out.append('// ===== prelude: %s =====' % p)
@@ -1070,8 +1173,9 @@ class Unit:
             out.append(self.process_traits())
         # pre-pass (E2): types whose derived PartialEq cannot be given a spec (contain Vec/BTreeMap/BTreeSet, transitively)
         structs = {}
-        for modpath, rel in cfg['modules']:
-            src0 = strip_comments(open(os.path.join(cfg['root'], rel)).read())
+        mods = [self.module_entry(m) for m in cfg['modules']]
+        for modpath, rel, opts in mods:
+            src0 = strip_comments(open(os.path.join(opts.get('root', cfg['root']), rel)).read())
             for m in re.finditer(r'\bstruct\s+(\w+)[^;{]*?(\{[^}]*\}|\([^;]*\)\s*(?:where[^;]*)?;)', src0, re.S):
                 structs.setdefault(m.group(1), '')
                 structs[m.group(1)] += m.group(2)
@@ -1086,8 +1190,8 @@ class Unit:
         self.noeq = noeq
         # module tree
         tree = {}
-        for modpath, rel in cfg['modules']:
-            v, p = self.process_file(rel, modpath)
+        for modpath, rel, opts in mods:
+            v, p = self.process_file(rel, modpath, opts)
             tree[modpath] = (v, p)
         # outlined helpers + extra go to the crate root `vhelpers`? -> emitted in the module of their function (handled inline)
 
@@ -1107,7 +1211,7 @@ class Unit:
         out.append('// ===== extracted crate =====')
         out.append(emit_mod('', 0))
         # outlined helper functions
-        helpers = [self.outline_items(c) for c in self.contracts.values() if c.used and c.outlines]
+        helpers = [self.outline_items(c) for c in self.contracts.values() if c.used and c.outlines and c.key not in self.downgraded]
         if helpers:
             out.append('pub mod voutl {\n' + STD_USE + '\n#[allow(unused_imports)] use crate::*;\nverus! {\n' + '\n'.join(helpers) + '\n} // verus!\n}')
         for p in cfg.get('postlude_files', []):
@@ -1115,7 +1219,8 @@ class Unit:
             out.append(open(os.path.join(cfg['verif_root'], p)).read())
         out.append('fn main() {}')
         text = '\n'.join(out)
-        unused = [c.key for c in self.contracts.values() if not c.used and c.key.startswith(cfg['repo_prefix'])]
+        prefixes = [cfg['repo_prefix']] + [o['repo_prefix'] for _, _, o in mods if o.get('repo_prefix')]
+        unused = [c.key for c in self.contracts.values() if not c.used and any(c.key.startswith(p) for p in prefixes)]
         if unused:
             raise ExtractError('lost anchor: sidecar blocks without a matching function: ' + '; '.join(unused))
         return text
